@@ -23,8 +23,12 @@ EIGHT = ["clean", "strip", "reject"]
 PUNCT = ["keep", "plus", "under"]
 TYPEORDER = ["NULL", "PRIVATE", "TXT", "SRV", "MX", "CNAME", "A"]
 LIMITS = [None, 4096, 1232, 512]
+# includes large incompressible packets offered on both sides at the same moment: full downstream fragments then travel in
+# answers to full-length upstream data queries - the largest answers this path will ever have to carry
 PKTS = [[200, "C0", "S", "rand", 300], [260, "S", "C0", "rand", 700], [900, "C0", "S", "text", 1100],
-        [1500, "S", "C0", "ff", 1100], [2500, "C0", "S", "rand", 40], [2600, "S", "C0", "zero", 1300]]
+        [1500, "S", "C0", "ff", 1100], [2500, "C0", "S", "rand", 40], [2600, "S", "C0", "zero", 1300],
+        [4000, "C0", "S", "rand", 1400], [4000, "S", "C0", "rand", 1400], [9000, "S", "C0", "rand", 1400],
+        [9001, "C0", "S", "rand", 1400]]
 
 
 def family():
